@@ -513,7 +513,8 @@ func tpScenarioMode(r *RunCtx, away bool) {
 	// on-wire-0 blocks: every queued/sent callback corresponds to a block the model put on the wire
 	for _, c := range chans {
 		wire := 0
-		for id, idxs := range c.resp.gs.OnWire {
+		for _, id := range sortedBy(c.resp.gs.OnWire, func(i graphsync.RequestID) string { return i.String() }) {
+			idxs := c.resp.gs.OnWire[id]
 			// requests of this channel on the responder
 			own := false
 			for _, x := range c.resp.gs.inHistory {
